@@ -156,6 +156,10 @@ SESSION_TEXT = {'C07': ['compressToken', 'decompressToken', 'SessionManager_GetS
 for _k, _fs in SESSION_TEXT.items():
     PROPS[_k]['facts'] = list(PROPS[_k].get('facts', [])) + ['text_' + _f for _f in _fs]
     PROPS[_k]['explanation'] += '; text obligations on session.go: ' + ', '.join(_fs)
+OTHER_TEXT = {'C02': ['parseJWT', 'JWT_Verify', 'verifyAudience', 'verifyIssuer', 'verifyTimeConstraint', 'verifyExpiration', 'verifyIssuedAt', 'verifyNotBefore', 'verifySignature', 'JWKCache_GetJWKS', 'jwkToPEM', 'TraefikOidc_VerifyJWTSignatureAndClaims'], 'C14': ['TraefikOidc_VerifyToken', 'TraefikOidc_performPreVerificationChecks', 'TraefikOidc_RevokeToken', 'TokenCache_Set', 'TokenCache_Get', 'TokenCache_Delete', 'TokenCache_Cleanup', 'extractClaims'], 'C19': ['TraefikOidc_VerifyToken', 'TraefikOidc_performPreVerificationChecks'], 'C20': ['TraefikOidc_initializeMetadata', 'TraefikOidc_updateMetadataEndpoints', 'TraefikOidc_startMetadataRefresh', 'discoverProviderMetadata', 'fetchMetadata', 'MetadataCache_GetMetadata', 'MetadataCache_isCacheValid', 'MetadataCache_Cleanup'], 'C06': ['TraefikOidc_isAllowedDomain', 'TraefikOidc_extractGroupsAndRoles'], 'C15': ['isLocalRedirectTarget', 'buildFullURL'], 'C01': ['TraefikOidc_determineExcludedURL', 'TraefikOidc_VerifyJWTSignatureAndClaims'], 'C05': ['JWKCache_GetJWKS', 'JWKCache_Cleanup']}
+for _k, _fs in OTHER_TEXT.items():
+    PROPS[_k]['facts'] = list(PROPS[_k].get('facts', [])) + ['text_' + _f for _f in _fs]
+    PROPS[_k]['explanation'] += '; text obligations: ' + ', '.join(_fs)
 for _k, _fs in SHAPES.items():
     PROPS[_k]['facts'] = list(PROPS[_k].get('facts', [])) + ['skel_' + _f for _f in _fs]
     PROPS[_k]['explanation'] += '; shape obligations: ' + ', '.join('Shape_' + _f for _f in _fs)
